@@ -5,15 +5,16 @@ namespace DS.Density
 
 variable {α ρ : Type}
 
-/-- what holds of every state reachable through the public API -/
-structure RInv (s : Sketch α) : Prop where
+/-- what holds of every state reachable through the public API (`top`: only claimed for the repaired shape of `compact()`) -/
+structure RInv (c : Cfg) (s : Sketch α) : Prop where
   inv : Inv s
   kpos : 1 ≤ s.k
   bound : s.numRetained ≤ s.k * s.levels.length
   nge : s.numRetained ≤ s.n
+  top : c.popsEmptyTop = true → topNonempty s.levels = true
 
-theorem init_rinv (k d : Nat) (hk : 1 ≤ k) : RInv (init k d : Sketch α) :=
-  ⟨⟨by simp [init, sumLen], by simp [init]⟩, hk, by simp [init], by simp [init]⟩
+theorem init_rinv (c : Cfg) (k d : Nat) (hk : 1 ≤ k) : RInv c (init k d : Sketch α) :=
+  ⟨⟨by simp [init, sumLen], by simp [init]⟩, hk, by simp [init], by simp [init], fun _ => rfl⟩
 
 theorem sumLen_pushLevel0 (p : Point α) (ls : List (Level α)) : sumLen (pushLevel0 p ls) = sumLen ls + 1 := by
   cases ls with
@@ -57,70 +58,112 @@ theorem mergeLevels_ne (a b : List (Level α)) (h : a ≠ []) : mergeLevels a b 
   | nil => exact absurd rfl h
   | cons x xs => cases b <;> simp [mergeLevels]
 
+theorem topNonempty_pushLevel0 (p : Point α) (ls : List (Level α)) (h : topNonempty ls = true) :
+    topNonempty (pushLevel0 p ls) = true := by
+  cases ls with
+  | nil => rfl
+  | cons l r => simpa [pushLevel0, topNonempty] using h
+
+theorem lastNonempty_mergeLevels (a b : List (Level α)) (ha : lastNonempty a = true) (hb : lastNonempty b = true) :
+    lastNonempty (mergeLevels a b) = true := by
+  induction a generalizing b with
+  | nil => cases b <;> simpa [mergeLevels] using hb
+  | cons x xs ih =>
+    cases b with
+    | nil => simpa [mergeLevels] using ha
+    | cons y ys =>
+      simp only [mergeLevels]
+      cases xs with
+      | nil =>
+        cases ys with
+        | nil =>
+          have : x.isEmpty = false := by simpa [lastNonempty] using ha
+          have hx : x ≠ [] := by intro h0; rw [h0] at this; simp at this
+          simp [mergeLevels, lastNonempty, hx]
+        | cons z zs =>
+          simp only [mergeLevels]
+          rw [lastNonempty_cons _ (by simp)]
+          simpa [lastNonempty] using hb
+      | cons w ws =>
+        have hne : mergeLevels (w :: ws) ys ≠ [] := mergeLevels_ne _ _ (by simp)
+        rw [lastNonempty_cons _ hne]
+        apply ih ys (by simpa [lastNonempty] using ha)
+        cases ys with
+        | nil => rfl
+        | cons z zs => simpa [lastNonempty] using hb
+
+theorem topNonempty_mergeLevels (a b : List (Level α)) (ha : topNonempty a = true) (hb : topNonempty b = true) :
+    topNonempty (mergeLevels a b) = true := by
+  cases a with
+  | nil => cases b <;> simpa [mergeLevels] using hb
+  | cons x xs =>
+    cases b with
+    | nil => simpa [mergeLevels] using ha
+    | cons y ys =>
+      simp only [mergeLevels, topNonempty] at ha hb ⊢
+      exact lastNonempty_mergeLevels xs ys ha hb
+
 /-! ### compactLoop facts in one place -/
 
-theorem compactLoop_inv (P : Picker ρ α) (r : ρ) {s : Sketch α} (hi : Inv s) : Inv (compactLoop P r s).1 :=
-  drain_inv P _ r hi
-theorem compactLoop_k (P : Picker ρ α) (r : ρ) (s : Sketch α) : (compactLoop P r s).1.k = s.k := drain_fst_k P _ r s
-theorem compactLoop_dim (P : Picker ρ α) (r : ρ) (s : Sketch α) : (compactLoop P r s).1.dim = s.dim := drain_fst_dim P _ r s
-theorem compactLoop_n (P : Picker ρ α) (r : ρ) (s : Sketch α) : (compactLoop P r s).1.n = s.n := drain_fst_n P _ r s
-theorem compactLoop_numRetained_le (P : Picker ρ α) (r : ρ) (s : Sketch α) :
-    (compactLoop P r s).1.numRetained ≤ s.numRetained := drain_numRetained_le P _ r s
-theorem compactLoop_length_ge (P : Picker ρ α) (r : ρ) (s : Sketch α) :
-    s.levels.length ≤ (compactLoop P r s).1.levels.length := drain_length_ge P _ r s
+theorem compactLoop_inv (c : Cfg) (P : Picker ρ α) (r : ρ) {s : Sketch α} (hi : Inv s) : Inv (compactLoop c P r s).1 :=
+  drain_inv c P _ r hi
+theorem compactLoop_k (c : Cfg) (P : Picker ρ α) (r : ρ) (s : Sketch α) : (compactLoop c P r s).1.k = s.k := drain_fst_k c P _ r s
+theorem compactLoop_dim (c : Cfg) (P : Picker ρ α) (r : ρ) (s : Sketch α) : (compactLoop c P r s).1.dim = s.dim :=
+  drain_fst_dim c P _ r s
+theorem compactLoop_n (c : Cfg) (P : Picker ρ α) (r : ρ) (s : Sketch α) : (compactLoop c P r s).1.n = s.n := drain_fst_n c P _ r s
+theorem compactLoop_numRetained_le (c : Cfg) (P : Picker ρ α) (r : ρ) (s : Sketch α) :
+    (compactLoop c P r s).1.numRetained ≤ s.numRetained := drain_numRetained_le c P _ r s
+/-- pinned shape only -/
+theorem compactLoop_length_ge (c : Cfg) (hp : c.popsEmptyTop = false) (P : Picker ρ α) (r : ρ) (s : Sketch α) :
+    s.levels.length ≤ (compactLoop c P r s).1.levels.length := drain_length_ge c hp P _ r s
 
 /-- after the loop: `num_retained_ < k_ * levels_.size()` -/
-theorem compactLoop_lt (P : Picker ρ α) (r : ρ) {s : Sketch α} (hi : Inv s) (hk : 1 ≤ s.k) :
-    (compactLoop P r s).1.numRetained < (compactLoop P r s).1.k * (compactLoop P r s).1.levels.length := by
-  have := compactLoop_exits P r hi hk
+theorem compactLoop_lt (c : Cfg) (P : Picker ρ α) (r : ρ) {s : Sketch α} (hi : Inv s) (hk : 1 ≤ s.k) :
+    (compactLoop c P r s).1.numRetained < (compactLoop c P r s).1.k * (compactLoop c P r s).1.levels.length := by
+  have := compactLoop_exits c P r hi hk
   simp only [loopCond, decide_eq_false_iff_not, Nat.not_le] at this
   exact this
 
-theorem compactLoop_rinv (P : Picker ρ α) (r : ρ) {s : Sketch α} (hi : Inv s) (hk : 1 ≤ s.k) (hn : s.numRetained ≤ s.n) :
-    RInv (compactLoop P r s).1 :=
-  ⟨compactLoop_inv P r hi, by rw [compactLoop_k]; exact hk, Nat.le_of_lt (compactLoop_lt P r hi hk),
-   by rw [compactLoop_n]; exact Nat.le_trans (compactLoop_numRetained_le P r s) hn⟩
+theorem compactLoop_rinv (c : Cfg) (P : Picker ρ α) (r : ρ) {s : Sketch α} (hi : Inv s) (hk : 1 ≤ s.k) (hn : s.numRetained ≤ s.n)
+    (ht : c.popsEmptyTop = true → topNonempty s.levels = true) : RInv c (compactLoop c P r s).1 :=
+  ⟨compactLoop_inv c P r hi, by rw [compactLoop_k]; exact hk, Nat.le_of_lt (compactLoop_lt c P r hi hk),
+   by rw [compactLoop_n]; exact Nat.le_trans (compactLoop_numRetained_le c P r s) hn,
+   fun hp => drain_topNonempty c hp P _ r s (ht hp)⟩
 
 /-! ### update -/
 
-theorem update_refused (P : Picker ρ α) (r : ρ) (s : Sketch α) (p : Point α) (h : p.length ≠ s.dim) :
-    update P r s p = (s, r) := by simp [update, h]
+theorem update_refused (c : Cfg) (P : Picker ρ α) (r : ρ) (s : Sketch α) (p : Point α) (h : p.length ≠ s.dim) :
+    update c P r s p = (s, r) := by simp [update, h]
 
-theorem update_accepted (P : Picker ρ α) (r : ρ) (s : Sketch α) (p : Point α) (h : p.length = s.dim) :
-    update P r s p =
-      ({ (compactLoop P r s).1 with levels := pushLevel0 p (compactLoop P r s).1.levels,
-                                     numRetained := (compactLoop P r s).1.numRetained + 1,
-                                     n := (compactLoop P r s).1.n + 1 }, (compactLoop P r s).2) := by
+theorem update_accepted (c : Cfg) (P : Picker ρ α) (r : ρ) (s : Sketch α) (p : Point α) (h : p.length = s.dim) :
+    update c P r s p =
+      ({ (compactLoop c P r s).1 with levels := pushLevel0 p (compactLoop c P r s).1.levels,
+                                       numRetained := (compactLoop c P r s).1.numRetained + 1,
+                                       n := (compactLoop c P r s).1.n + 1 }, (compactLoop c P r s).2) := by
   simp [update, h]
 
-theorem update_rinv (P : Picker ρ α) (r : ρ) {s : Sketch α} (hs : RInv s) (p : Point α) : RInv (update P r s p).1 := by
+theorem update_rinv (c : Cfg) (P : Picker ρ α) (r : ρ) {s : Sketch α} (hs : RInv c s) (p : Point α) :
+    RInv c (update c P r s p).1 := by
   by_cases h : p.length = s.dim
-  · rw [update_accepted P r s p h]
-    have hc := compactLoop_rinv P r hs.inv hs.kpos hs.nge
-    have hlt := compactLoop_lt P r hs.inv hs.kpos
-    refine ⟨⟨?_, ?_⟩, hc.kpos, ?_, ?_⟩
+  · rw [update_accepted c P r s p h]
+    have hc := compactLoop_rinv c P r hs.inv hs.kpos hs.nge hs.top
+    have hlt := compactLoop_lt c P r hs.inv hs.kpos
+    refine ⟨⟨?_, ?_⟩, hc.kpos, ?_, ?_, ?_⟩
     · simp only [sumLen_pushLevel0]; have := hc.inv.cnt; omega
     · exact pushLevel0_ne _ _
     · simp only [length_pushLevel0 _ _ hc.inv.ne]; omega
     · simp only; have := hc.nge; omega
-  · rw [update_refused P r s p h]; exact hs
+    · intro hp; exact topNonempty_pushLevel0 _ _ (hc.top hp)
+  · rw [update_refused c P r s p h]; exact hs
 
-theorem update_dim (P : Picker ρ α) (r : ρ) (s : Sketch α) (p : Point α) : (update P r s p).1.dim = s.dim := by
+theorem update_dim (c : Cfg) (P : Picker ρ α) (r : ρ) (s : Sketch α) (p : Point α) : (update c P r s p).1.dim = s.dim := by
   by_cases h : p.length = s.dim
-  · rw [update_accepted P r s p h]; exact compactLoop_dim P r s
-  · rw [update_refused P r s p h]
+  · rw [update_accepted c P r s p h]; exact compactLoop_dim c P r s
+  · rw [update_refused c P r s p h]
 
-theorem update_n (P : Picker ρ α) (r : ρ) (s : Sketch α) (p : Point α) (h : p.length = s.dim) :
-    (update P r s p).1.n = s.n + 1 := by
-  rw [update_accepted P r s p h]; simp only; rw [compactLoop_n]
-
-theorem update_length_ge (P : Picker ρ α) (r : ρ) {s : Sketch α} (hi : Inv s) (p : Point α) :
-    s.levels.length ≤ (update P r s p).1.levels.length := by
-  by_cases h : p.length = s.dim
-  · rw [update_accepted P r s p h]
-    simp only [length_pushLevel0 _ _ (compactLoop_inv P r hi).ne]
-    exact compactLoop_length_ge P r s
-  · rw [update_refused P r s p h]; exact Nat.le_refl _
+theorem update_n (c : Cfg) (P : Picker ρ α) (r : ρ) (s : Sketch α) (p : Point α) (h : p.length = s.dim) :
+    (update c P r s p).1.n = s.n + 1 := by
+  rw [update_accepted c P r s p h]; simp only; rw [compactLoop_n]
 
 /-! ### merge -/
 
@@ -134,19 +177,25 @@ theorem merge_skipped (c : Cfg) (P : Picker ρ α) (r : ρ) (s o : Sketch α) (h
 theorem merge_refused (c : Cfg) (P : Picker ρ α) (r : ρ) (s o : Sketch α) (h : o.dim ≠ s.dim) : merge c P r s o = (s, r) := by
   simp [merge, h]
 theorem merge_accepted (c : Cfg) (P : Picker ρ α) (r : ρ) (s o : Sketch α) (h0 : mergeSkips c o = false) (hd : o.dim = s.dim) :
-    merge c P r s o = compactLoop P r (merged s o) := by
+    merge c P r s o = compactLoop c P r (merged s o) := by
   simp [merge, h0, hd, merged]
 
 theorem merged_inv {s o : Sketch α} (hs : Inv s) (ho : Inv o) : Inv (merged s o) :=
   ⟨by simp only [merged, sumLen_mergeLevels]; rw [hs.cnt, ho.cnt], mergeLevels_ne _ _ hs.ne⟩
 
-theorem merge_rinv (c : Cfg) (P : Picker ρ α) (r : ρ) {s o : Sketch α} (hs : RInv s) (ho : RInv o) : RInv (merge c P r s o).1 := by
+theorem merged_top (c : Cfg) {s o : Sketch α} (hs : RInv c s) (ho : RInv c o) :
+    c.popsEmptyTop = true → topNonempty (merged s o).levels = true :=
+  fun hp => topNonempty_mergeLevels _ _ (hs.top hp) (ho.top hp)
+
+theorem merge_rinv (c : Cfg) (P : Picker ρ α) (r : ρ) {s o : Sketch α} (hs : RInv c s) (ho : RInv c o) :
+    RInv c (merge c P r s o).1 := by
   by_cases h0 : mergeSkips c o = true
   · rw [merge_skipped c P r s o h0]; exact hs
   · by_cases hd : o.dim = s.dim
     · rw [merge_accepted c P r s o (by simpa using h0) hd]
-      apply compactLoop_rinv P r (merged_inv hs.inv ho.inv) hs.kpos
-      simp only [merged]; have := hs.nge; have := ho.nge; omega
+      apply compactLoop_rinv c P r (merged_inv hs.inv ho.inv) hs.kpos
+      · simp only [merged]; have := hs.nge; have := ho.nge; omega
+      · exact merged_top c hs ho
     · rw [merge_refused c P r s o hd]; exact hs
 
 theorem merge_dim (c : Cfg) (P : Picker ρ α) (r : ρ) (s o : Sketch α) : (merge c P r s o).1.dim = s.dim := by
@@ -155,15 +204,6 @@ theorem merge_dim (c : Cfg) (P : Picker ρ α) (r : ρ) (s o : Sketch α) : (mer
   · by_cases hd : o.dim = s.dim
     · rw [merge_accepted c P r s o (by simpa using h0) hd, compactLoop_dim]; rfl
     · rw [merge_refused c P r s o hd]
-
-theorem merge_length_ge (c : Cfg) (P : Picker ρ α) (r : ρ) (s o : Sketch α) :
-    s.levels.length ≤ (merge c P r s o).1.levels.length := by
-  by_cases h0 : mergeSkips c o = true
-  · rw [merge_skipped c P r s o h0]; exact Nat.le_refl _
-  · by_cases hd : o.dim = s.dim
-    · rw [merge_accepted c P r s o (by simpa using h0) hd]
-      exact Nat.le_trans (length_mergeLevels_ge s.levels o.levels) (compactLoop_length_ge P r (merged s o))
-    · rw [merge_refused c P r s o hd]; exact Nat.le_refl _
 
 /-! ### whole histories -/
 
@@ -174,10 +214,10 @@ theorem run_dim (c : Cfg) (P : Picker ρ α) (hist : Hist α) (r : ρ) : (run c 
   | merge h o ih _ => simp only [run, Hist.dim]; rw [merge_dim]; exact ih r
 
 theorem run_rinv (c : Cfg) (P : Picker ρ α) (minK : Nat) (hm : 1 ≤ minK) (hist : Hist α) (hv : hist.valid minK) (r : ρ) :
-    RInv (run c P hist r).1 := by
+    RInv c (run c P hist r).1 := by
   induction hist generalizing r with
-  | new k d => exact init_rinv k d (Nat.le_trans hm hv)
-  | upd h p ih => simp only [run]; exact update_rinv P _ (ih hv r) p
+  | new k d => exact init_rinv c k d (Nat.le_trans hm hv)
+  | upd h p ih => simp only [run]; exact update_rinv c P _ (ih hv r) p
   | merge h o ih1 ih2 => simp only [run]; exact merge_rinv c P _ (ih1 hv.1 r) (ih2 hv.2 _)
 
 /-! ### iterator -/
